@@ -405,6 +405,8 @@ pub struct Rig<V: VringT<GM> + Clone + Send + Sync + 'static> {
     pub regions: Vec<Region>,
     pub logfile: Option<(File, u64, u64)>,
     pub dropper: Box<dyn FnOnce() + Send>,
+    pub restart: Box<dyn FnMut() -> Option<UnixStream> + Send>,
+    pub path: String,
     pub handlers_reg: Box<dyn Fn(usize, i32, u64) -> std::io::Result<()> + Send>,
     pub alive: bool,
 }
@@ -437,23 +439,38 @@ pub fn make_rig<V: VringT<GM> + Clone + Send + Sync + 'static>(cfg: Cfg, adapter
             let hs = d.get_epoll_handlers();
             let reg: Box<dyn Fn(usize, i32, u64) -> std::io::Result<()> + Send> =
                 Box::new(move |t, fd, id| hs[t].register_listener(fd, EventSet::IN, id));
+            let d = Arc::new(Mutex::new(Some(d)));
+            let d2 = d.clone();
             let dropper: Box<dyn FnOnce() + Send> = Box::new(move || {
-                let mut d = d;
-                d.request_shutdown();
-                let _ = d.wait();
-                drop(d);
+                if let Some(mut d) = d2.lock().unwrap().take() {
+                    d.request_shutdown();
+                    let _ = d.wait();
+                    drop(d);
+                }
             });
-            (reg, dropper)
+            // a new connection to the same daemon (the previous one has ended): wait for the old daemon
+            // thread, start a new one on the same listener, connect
+            let rpath = path.clone();
+            let restart: Box<dyn FnMut() -> Option<UnixStream> + Send> = Box::new(move || {
+                let mut g = d.lock().unwrap();
+                let d = g.as_mut()?;
+                let _ = d.wait();
+                let s = UnixStream::connect(&rpath).ok()?;
+                d.start(&mut listener).ok()?;
+                s.set_read_timeout(Some(Duration::from_millis(3000))).ok()?;
+                Some(s)
+            });
+            (reg, dropper, restart)
         }};
     }
-    let (reg, dropper) = match adapter {
+    let (reg, dropper, restart) = match adapter {
         "mutex" => build!(Arc::new(Mutex::new(TBMut(tb.clone())))),
         "rwlock" => build!(Arc::new(RwLock::new(TBMut(tb.clone())))),
         _ => build!(tb.clone()),
     };
-    drop(listener);
-    let _ = std::fs::remove_file(&path);
     let mut rig = Rig {
+        restart,
+        path,
         log,
         tb,
         peer: Peer {
@@ -530,10 +547,24 @@ impl<V: VringT<GM> + Clone + Send + Sync + 'static> Rig<V> {
         json!({"offered": limbs(offered), "offered_pf": limbs(offered_pf), "set_features": r2.status})
     }
 
+    /// The current connection has ended (or is dropped here); open a new one to the same daemon.
+    pub fn reconnect(&mut self) -> bool {
+        let _ = self.peer.sock.shutdown(std::net::Shutdown::Both);
+        match (self.restart)() {
+            Some(s) => {
+                self.peer = Peer { sock: s, reply_ack: false, offered_pf: false };
+                true
+            }
+            None => false,
+        }
+    }
+
     pub fn finish(self) -> Arc<Log> {
-        let Rig { peer, dropper, log, .. } = self;
+        let Rig { peer, dropper, log, restart, path, .. } = self;
         drop(peer);
         dropper();
+        drop(restart);
+        let _ = std::fs::remove_file(&path);
         log
     }
 }
